@@ -77,7 +77,12 @@ class Fn:
                 return
             if ir[0] == 'cmp' and len(ir[1]) == 1:
                 op = ir[1][0] if pol else NEG[ir[1][0]]
-                out.append((op, ir[2][0], ir[2][1]))
+                a, b = ir[2][0], ir[2][1]
+                out.append((op, a, b))
+                # the same fact with its operands swapped (`hi >= lo` is `lo <= hi`): consumers match either spelling
+                FLIP = {'<': '>', '<=': '>=', '>': '<', '>=': '<=', '==': '==', '!=': '!='}
+                if op in FLIP:
+                    out.append((FLIP[op], b, a))
                 return
             out.append(('truthy' if pol else 'falsy', ir, ('num', 0)))
         fs = self.facts(sub)
@@ -333,6 +338,12 @@ def _judge_deref(rep: Report, cu: CUnit, fn: Fn, sub: Dict[str, Any], outparams:
             ok = outparams.get((fn.name, name), False)
             rep.check(ok, 'C11.BOUNDS', construct, 'out-parameter: every call site passes the address of a local (or forwards its own)'
                       if ok else 'a call site passes something other than &local', site)
+            return
+        adefs = [strip(d) for d in fn.defs.get(name, [])]
+        if adefs and all(d.get('kind') == 'UnaryOperator' and d.get('opcode') == '&' and strip(d['inner'][0]).get('kind') in
+                         ('MemberExpr', 'DeclRefExpr') for d in adefs):
+            # a local that only ever holds the address of an existing lvalue (the expansion of Py_CLEAR / Py_SETREF)
+            rep.ok('C11.BOUNDS', construct, f'local pointer defined only as {[cu.src_of(d) for d in adefs][:2]}: the address of an lvalue', site)
             return
         if name == 'op_flat_jump':
             truthy = any(op == 'truthy' and lx.show(a) == 'op_flat_jump' for op, a, b in fn.atomic_facts(sub))
@@ -719,6 +730,16 @@ def rule_errors(rep: Report, cu: CUnit) -> None:
                'PyInit__fjcore', 'build_run_result', 'mem_get_page', 'mem_grow_slots', 'mem_decide_storage', 'spec_grow']
     error_helpers = {'mem_get_page', 'mem_grow_slots', 'mem_decide_storage', 'spec_grow', 'build_run_result',
                      'run_measured_loop', 'run_flat_loop', 'run_generic_loop'}
+    # every function that returns a PyObject* follows the CPython convention (NULL <=> error indicator set): judged like the
+    # frozen entry points, and - once all its failure returns are discharged - usable as an error-setting helper by its callers
+    py_returning = sorted(f for f in cu.funcs if cu.func(f).get('type', {}).get('qualType', '').startswith('PyObject *(')
+                          and f not in exposed)
+    for f in py_returning:
+        g0 = Fn(cu, f).g
+        rets = [n for n in g0.nodes if n.kind == 'return' and isinstance(n.ast, dict) and cu.src_of(n.ast) == 'return NULL']
+        if rets and all(_error_set_before(cu, g0, n.id, SETTERS, FAILING_API | error_helpers) for n in rets):
+            error_helpers.add(f)
+    exposed = exposed + [f for f in py_returning if f not in exposed]
     for name in exposed:
         fn = Fn(cu, name)
         g = fn.g
